@@ -175,9 +175,14 @@ def _mpt_ops(events):
 
 MPT = dict(
     name="mpt", component="mpt", trace_module="MPTTrace", trace_cfg="MPTTrace.cfg",
-    design={"quick": [("MPT_MC", "MPT_MC.cfg")], "thorough": [("MPT_MC", "MPT_MC.cfg")]},
-    gen={"quick": [dict(module="MPTGen_MC", cfg="MPTGen_quick.cfg", workers=1)],
-         "thorough": [dict(module="MPTGen_MC", cfg="MPTGen_thorough.cfg", timeout=1800, workers=1)]},
+    design={"quick": [("MPT_MC", "MPT_MC.cfg"), ("MPTAlg_MC", "MPTAlg_fixed.cfg")],
+            "thorough": [("MPT_MC", "MPT_MC.cfg"), ("MPTAlg_MC", "MPTAlg_fixed.cfg")]},
+    mutants={t: [("MPTAlg_MC", "MPTAlg_orig-insert-ext1.cfg", "Refines"), ("MPTAlg_MC", "MPTAlg_orig-delete-boundary.cfg", "Refines"),
+                 ("MPTAlg_MC", "MPTAlg_orig-delete-value.cfg", "Refines")] for t in ("quick", "thorough")},
+    gen={"quick": [dict(module="MPTGen_MC", cfg="MPTGen_quick.cfg", workers=8)],
+         "thorough": [dict(module="MPTGen_MC", cfg="MPTGen_thorough.cfg", timeout=1800, workers=8),
+                      # one test per transition of the complete state graph of MPT.tla (content before, operation)
+                      dict(module="MPTGen_MC", cfg="MPTGen_trans.cfg", timeout=3000, workers=8)]},
     exec_args=lambda tier, seed: (["-n", 1500, "-maxops", 25, "-shapeevery", 3] if tier == "quick"
                                   else ["-n", 40000, "-maxops", 40, "-shapeevery", 4]),
     flags={"C01": {"items", "get", "res", "retroot", "unknown-op"},
@@ -207,10 +212,10 @@ def _sc_ops(events):
 SC = dict(
     name="statecache", component="statecache", trace_module="StateCacheTrace", trace_cfg="StateCacheTrace.cfg",
     design={"quick": [("StateCache_MC", "StateCache_MC.cfg")], "thorough": [("StateCache_MC", "StateCache_MC.cfg")]},
-    gen={"quick": [dict(module="StateCacheGen", cfg="StateCacheGen_ex.cfg", workers=1),
+    gen={"quick": [dict(module="StateCacheGen", cfg="StateCacheGen_ex.cfg", workers=8),
                    dict(module="StateCacheGen", cfg="StateCacheGen_sim.cfg", workers=1,
                         extra=["-simulate", "num=3000", "-depth", "18", "-seed", "{seed}"])],
-         "thorough": [dict(module="StateCacheGen", cfg="StateCacheGen_ex4.cfg", workers=1, timeout=3000),
+         "thorough": [dict(module="StateCacheGen", cfg="StateCacheGen_ex4.cfg", workers=8, timeout=3000),
                       dict(module="StateCacheGen", cfg="StateCacheGen_sim.cfg", workers=1, timeout=3000,
                            extra=["-simulate", "num=60000", "-depth", "18", "-seed", "{seed}"])]},
     exec_args=lambda tier, seed: (["-n", 2000, "-nlong", 6] if tier == "quick" else ["-n", 40000, "-nlong", 150]),
@@ -256,14 +261,24 @@ def run_c08(prop, tier, seed):
               ("CBC", "R_ABC")]
     if tier == "thorough":
         scopes += [("CBC", "R_BBC"), ("CBC", "R_BCC")]
+    from concurrent.futures import ThreadPoolExecutor
+    jobs = []
     n = 0
     for wr in writes_all:
         for (cm, rd) in scopes:
             n += 1
-            cfg = _conc_cfg(d, "d%d" % n, "link_then_probe", wr, cm, rd, safety)
-            s, t = vlib.design_check(d, "StateCacheConc_MC", cfg, workers=4, timeout=600, xmx="4g")
-            res.states += s
-            res.transitions += t
+            jobs.append(_conc_cfg(d, "d%d" % n, "link_then_probe", wr, cm, rd, safety))
+
+    def _design(cfg):
+        sd = os.path.join(d, "dd_" + cfg[:-4])
+        os.makedirs(sd, exist_ok=True)
+        for x in glob.glob(os.path.join(d, "StateCacheConc*.tla")) + [os.path.join(d, cfg)]:
+            shutil.copy(x, sd)
+        return vlib.design_check(sd, "StateCacheConc_MC", cfg, workers=1, timeout=600, xmx="2g")
+    with ThreadPoolExecutor(max_workers=10) as ex:
+        for s_, t_ in ex.map(_design, jobs):
+            res.states += s_
+            res.transitions += t_
     log("design: StateCacheConc (link_then_probe) safe in %d scopes, %d distinct states" % (n, res.states))
     cfg = _conc_cfg(d, "mut", "probe_then_link", "WritesB", "CB", "R_B", safety)
     vlib.design_check(d, "StateCacheConc_MC", cfg, workers=1, timeout=120, expect_violation="HitIsTruth")
@@ -284,18 +299,29 @@ def run_c08(prop, tier, seed):
         for wr in ("WritesB", "WritesBC"):
             for rd in ("R_BB", "R_BC", "R_A1C"):
                 gens.append(("link_then_probe", wr, "CB", rd, None))   # every 1C+2R schedule
+    gjobs = []
     gi = 0
     for (algo, wr, cm, rd, num) in gens:
         gi += 1
         cfg = _conc_cfg(d, "g%d" % gi, algo, wr, cm, rd, "Emit", view=False)
         extra = ["-simulate", "num=%d" % num, "-depth", "60", "-seed", str(seed + gi)] if num else []
-        part = os.path.join(d, "sched_%d.ndjson" % gi)
-        k, st, tr_ = vlib.gen_histories(d, "StateCacheConc_MC", cfg, part, extra=extra, workers=1, timeout=1200, xmx="6g")
-        with open(hist, "a") as f, open(part) as pf:
-            shutil.copyfileobj(pf, f)
-        nh += k
-        res.states += st
-        res.transitions += tr_
+        gjobs.append((gi, cfg, extra))
+
+    def _gen(job):
+        gi_, cfg, extra = job
+        sd = os.path.join(d, "gg_%d" % gi_)
+        os.makedirs(sd, exist_ok=True)
+        for x in glob.glob(os.path.join(d, "StateCacheConc*.tla")) + [os.path.join(d, cfg)]:
+            shutil.copy(x, sd)
+        part = os.path.join(d, "sched_%d.ndjson" % gi_)
+        return (part,) + vlib.gen_histories(sd, "StateCacheConc_MC", cfg, part, extra=extra, workers=1, timeout=1200, xmx="2g")
+    with ThreadPoolExecutor(max_workers=10) as ex:
+        for part, k, st, tr_ in ex.map(_gen, gjobs):
+            with open(hist, "a") as f, open(part) as pf:
+                shutil.copyfileobj(pf, f)
+            nh += k
+            res.states += st
+            res.transitions += tr_
     log("TLC emitted %d schedules (%d generator configurations)" % (nh, gi))
     # 3. replay on real goroutines through the yield hook
     prefix = os.path.join(d, "trace")
@@ -372,10 +398,10 @@ ROUNDS = dict(
             "thorough": [("MPTTxn_MC", "MPTTxn_MC.cfg"), ("MPTPersist", "MPTPersist_MC4.cfg")]},
     mutants={"quick": [("MPTPersist", "MPTPersist_mut_origin.cfg", "DeadNotLive"), ("MPTPersist", "MPTPersist_mut_slack.cfg", "Safe")],
              "thorough": [("MPTPersist", "MPTPersist_mut_origin.cfg", "DeadNotLive"), ("MPTPersist", "MPTPersist_mut_slack.cfg", "Safe")]},
-    gen={"quick": [dict(module="MPTTxn_MC", cfg="MPTTxn_gen_ex.cfg", workers=1),
+    gen={"quick": [dict(module="MPTTxn_MC", cfg="MPTTxn_gen_ex.cfg", workers=8),
                    dict(module="MPTTxn_MC", cfg="MPTTxn_gen_sim.cfg", workers=1,
                         extra=["-simulate", "num=1500", "-depth", "12", "-seed", "{seed}"])],
-         "thorough": [dict(module="MPTTxn_MC", cfg="MPTTxn_gen_ex5.cfg", workers=1, timeout=3000),
+         "thorough": [dict(module="MPTTxn_MC", cfg="MPTTxn_gen_ex5.cfg", workers=8, timeout=3000),
                       dict(module="MPTTxn_MC", cfg="MPTTxn_gen_sim.cfg", workers=1, timeout=3000,
                            extra=["-simulate", "num=40000", "-depth", "12", "-seed", "{seed}"])]},
     exec_args=lambda tier, seed: (["-n", 300, "-nblock", 300] if tier == "quick" else ["-n", 8000, "-nblock", 8000]),
@@ -410,8 +436,8 @@ def _sync_ops(events):
 SYNC = dict(
     name="sync", component="sync", trace_module="MPTSyncTrace", trace_cfg="MPTSyncTrace.cfg",
     design={"quick": [("MPTSync_MC", "MPTSync_MC.cfg")], "thorough": [("MPTSync_MC", "MPTSync_MC.cfg")]},
-    gen={"quick": [dict(module="MPTSync_MC", cfg="MPTSync_gen.cfg", workers=1)],
-         "thorough": [dict(module="MPTSync_MC", cfg="MPTSync_genbig.cfg", workers=1, timeout=3000)]},
+    gen={"quick": [dict(module="MPTSync_MC", cfg="MPTSync_gen.cfg", workers=8)],
+         "thorough": [dict(module="MPTSync_MC", cfg="MPTSync_genbig.cfg", workers=8, timeout=3000)]},
     exec_args=lambda tier, seed: (["-n", 600] if tier == "quick" else ["-n", 20000]),
     flags={"C17": {"shape", "plan", "hasmissing", "allmissing", "missingkeys", "lookup", "repairres", "repairroot",
                    "repaircontent", "donorchanged", "repairkeys", "unknown-op"}},
